@@ -6,6 +6,7 @@ import RsModel.Lemmas.ReplayNames
 import RsModel.Lemmas.ReplayLines
 import RsModel.Lemmas.MappedNE
 import RsModel.Lemmas.ReplayMap
+import RsModel.Lemmas.ColdStrip
 /-!
 # C10 — CachedSource is transparent for every call history
 -/
@@ -272,5 +273,13 @@ theorem c10_replay_final (id : Nat) (inner : Src) (σ σN : Store) (h : inner.Mo
   have := attr_of_stream _ b1 b2 b3
   rw [b4] at this
   exact this
+
+
+/-- **C10, cold caches at any depth**: a tree whose CachedSource nodes (any number, anywhere — also beneath ReplaceSource and
+ConcatSource nodes) all have cold caches streams, in every mode, exactly what the same tree without the CachedSource wrappers
+streams; `get_map` returns the same map; `source()` is the same text.  (Distinct CachedSource nodes own distinct caches.) -/
+theorem c10_cold_transparent (s : Src) (o : Opts) (σ : Store) (hn : s.ids.Nodup) (hc : Cold σ s.ids) :
+    (s.stream o σ).1 = (s.strip.stream o []).1 ∧ (getMap s o σ).1 = (getMap s.strip o []).1 ∧ s.src = s.strip.src ∧ s.strip.NoCached :=
+  ⟨Src.stream_strip s o σ hn hc, getMap_strip s o σ hn hc, (Src.strip_src s).symm, Src.strip_nc s⟩
 
 end Rs
